@@ -2,8 +2,8 @@ CONSTANTS
  Tags = {"t1", "t2"}
  Mans = {"m1", "m2"}
  TagOrder <- MCTagOrder
- Procs = {"p1"}
- Confs <- LayDupAdj
+ Procs = {"p1", "p2"}
+ Confs <- OldCache
  MaxOps = 1
  OpTags = {"t1", "t2"}
  OpMans = {"m1", "m2"}
@@ -11,5 +11,5 @@ CONSTANTS
  UseMutex = TRUE
  FreshPH = TRUE
 SPECIFICATION Spec
-INVARIANTS NoViol Glue Quiescent LayoutGlue WellFormed CacheCoherent GetStable HeadStable
+INVARIANTS CacheCoherent
 CHECK_DEADLOCK FALSE
